@@ -73,6 +73,9 @@ structure World (cfg : Cfg) where
   wire : Bytes := []
   calls : List Nat := []
   xcalls : List Nat := []
+  /-- requests handed to the upgrade service -/
+  upgrades : List Nat := []
+  upEncoded : Bool := false
   rlog : List (Nat × Nat × String) := []
   shutdownCalls : Nat := 0
   result : Option String := none
@@ -108,6 +111,7 @@ def absorb (w : World cfg) : List Out → World cfg
         { w with xcalls := w.xcalls ++ [r],
                  expPend := match w.especs[r]? with | some (.ok n) => n | _ => 0 }
       | .ioShutdown => { w with shutdownCalls := w.shutdownCalls + 1 }
+      | .upgrade r => { w with upgrades := w.upgrades ++ [r] }
       | .done okay kind => { w with result := some (if okay then "ok" else "err:" ++ kind) }
       | _ => w
     absorb w1 os
@@ -123,7 +127,7 @@ def evName : Event → String
   | .flushZero => "flushZero" | .flushErr => "flushErr" | .lingerArm => "lingerArm"
   | .lingerDiscard => "lingerDiscard" | .lingerEof => "lingerEof" | .lingerPending => "lingerPending"
   | .shutdownDone => "shutdownDone" | .ioShutdown _ => "ioShutdown" | .readerPoll _ => "readerPoll"
-  | .readerDrop _ => "readerDrop"
+  | .readerDrop _ => "readerDrop" | .upgradeEncode _ _ => "upgradeEncode" | .upgradeDone _ => "upgradeDone"
 
 /-- the only way the scheduler touches the dispatcher state -/
 def fire (e : Event) : M cfg (List Out) := do
@@ -342,6 +346,7 @@ def pollResponse : Nat → M cfg Bool
       let wasEmpty := s.messages.isEmpty || s.flags.draining
       let _ ← fire .pop
       if wasEmpty then return false
+      if (← st).mode == .upgraded then return false
       afterHead
       pollResponse fuel
     | .service _ =>
@@ -392,6 +397,10 @@ def readAvail : Nat → M cfg PUnit
   | fuel + 1 => do
     let s ← st
     if (← finished) || s.flags.readDisc then return
+    if s.bufFull then
+      -- l.1172: the read buffer is at its cap; wake (or wait for the paused payload) and stop
+      let _ ← fire .readFull
+      return
     let w ← get
     if w.sockEof then
       let _ ← fire .readEof
@@ -413,7 +422,7 @@ def respLoop : Nat → M cfg PUnit
   | 0 => pure ()
   | fuel + 1 => do
     let drain ← pollResponse fuel
-    if (← finished) then return
+    if (← finished) || (← st).mode == .upgraded then return
     if !drain then
       let s ← st
       if s.flags.keepAlive && s.flags.finished && cfg.kaTimeout && s.kaTimer != .active then
@@ -441,11 +450,31 @@ def lingerLoop : Nat → M cfg PUnit
       return
     lingerLoop fuel
 
+def upgradeMarker : Bytes := str "upgraded"
+
+/-- `UpgradeFut::poll` of the harness: encode a fixed 101 + marker through the `Framed`, flush, finish -/
+def upgradePoll (fuel : Nat) : M cfg PUnit := do
+  let s ← st
+  let w ← get
+  if !w.upEncoded then
+    let rid := match s.st with | .upgrade r => r.rid | _ => 0
+    set { w with upEncoded := true }
+    let _ ← fire (.upgradeEncode
+      { status := 101, connType := some .upgrade, chunked := true, headers := [(str "x-rid", str (toString rid))] }
+      upgradeMarker)
+  let ready ← flush fuel
+  if (← finished) then return
+  if ready then
+    let _ ← fire (.upgradeDone true)
+
 /-- one `Dispatcher::poll` call, including `return self.poll(cx)` re-entries -/
 def pollOnce : Nat → M cfg PUnit
   | 0 => pure ()
   | fuel + 1 => do
     if (← finished) then return
+    if (← st).mode == .upgraded then
+      upgradePoll fuel
+      return
     let _ ← fire .pollStart
     let _ ← fire .enter
     let s ← st
@@ -475,6 +504,10 @@ def pollOnce : Nat → M cfg PUnit
         let _ ← fire .disconnect
       respLoop fuel
       if (← finished) then return
+      if (← st).mode == .upgraded then
+        -- `PollResponse::Upgrade`: the upgrade future is polled at once (`return self.poll(cx)`)
+        upgradePoll fuel
+        return
       let o ← fire .tail
       if o.contains .repoll then pollOnce fuel
 
